@@ -44,6 +44,7 @@ type epConn struct {
 	failNext    bool          // handler fails on the next reply
 	ue          *UdpEndpoint
 	closeSeq    int
+	creator     string // task that dialled it (runs createEndpointLocked)
 }
 
 // epDialWrap is the netproxy.Dialer handed to the real dialer.Dialer.
@@ -129,6 +130,7 @@ func (w *epWorld) definitelyAlive(c *epConn, now time.Duration) bool {
 
 func epScenario(s *verifsim.Sim) {
 	T := s.T
+	s.TrackFrames = true // the invalidation oracle asks where an endpoint's creator is parked
 	w := &epWorld{s: s, byPC: map[*verifsim.SimPacketConn]*epConn{}, inFlight: map[int]int{},
 		kern: map[bpfTuplesKey]bool{}, owners: map[bpfTuplesKey]map[*epConn]bool{}, delFault: map[bpfTuplesKey]bool{}, invalidating: map[int]int{}}
 	w.nat = []time.Duration{10 * time.Second, 3 * time.Second, 60 * time.Second}[T.Choose(3)]
@@ -248,7 +250,7 @@ func epScenario(s *verifsim.Sim) {
 			}
 			if plan.Err == nil && !plan.Hang {
 				w.seq++
-				c := &epConn{id: len(w.conns), key: key, dialer: di}
+				c := &epConn{id: len(w.conns), key: key, dialer: di, creator: verifsim.TaskName()}
 				c.pc = verifsim.NewSimPacketConn(fmt.Sprintf("c%d", c.id), &w.seq)
 				c.pc.WriteHook = func(b []byte, addr string) (int, error) {
 					c.writes++
@@ -575,7 +577,7 @@ func epScenario(s *verifsim.Sim) {
 			spawn("invalidate", func() {
 				// endpoints of this dialer that have not definitely carried traffic may be
 				// retired; those that have carried nothing at all must never be handed out again
-				var cand []*epConn
+				var cand, candNew []*epConn
 				for _, c := range w.conns {
 					if c.dialer == di && c.pc.CloseCount == 0 {
 						if c.writesDone == 0 && c.handled == 0 {
@@ -583,6 +585,13 @@ func epScenario(s *verifsim.Sim) {
 						}
 						if c.writes == 0 && c.delivered == 0 && c.ue != nil {
 							cand = append(cand, c)
+						}
+						// not handed out yet, but its creator is already registering it in the
+						// dialer index: the generation snapshot was taken before this health
+						// change, so the endpoint is as invalidated as a published one
+						if c.writes == 0 && c.delivered == 0 && c.ue == nil && c.creator != "" && s.ParkedInFunc(c.creator, "UdpEndpointPool).registerEndpoint") {
+							s.Probe("endpoint.invalidate-during-registration")
+							candNew = append(candNew, c)
 						}
 					}
 				}
@@ -593,6 +602,12 @@ func epScenario(s *verifsim.Sim) {
 				w.seq++
 				for _, c := range cand {
 					if c.writes == 0 && c.delivered == 0 && c.ue != nil {
+						c.mustNotRet = true
+						c.mustNotSeq = w.seq
+					}
+				}
+				for _, c := range candNew {
+					if c.writes == 0 && c.delivered == 0 && c.ue == nil {
 						c.mustNotRet = true
 						c.mustNotSeq = w.seq
 					}
